@@ -77,6 +77,11 @@ class Func:
                     return n
                 n = self.node(c[0])
                 continue
+            if k == 'InitListExpr' and len(n.get('ch', [])) == 1:
+                c0 = self.node(n['ch'][0])
+                if c0 is not None and (c0.get('ty') or '').replace('const ', '') == (n.get('ty') or '').replace('const ', ''):
+                    n = c0
+                    continue
             if k == 'CXXConstructExpr' and len(n.get('args', [])) == 1 and \
                     n.get('ctor') and self.node(n['args'][0]) is not None and \
                     _same_class_copy(n, self.node(n['args'][0])):
@@ -154,6 +159,35 @@ class Func:
             if v is n:
                 return k
         return None
+
+    def parents(self):
+        """id(node) -> parent node (the node that has it as child / argument / receiver / initialiser)."""
+        if getattr(self, '_par', None) is None:
+            par = {}
+            for n in self.all_nodes():
+                kids = list(n.get('ch', [])) + list(n.get('args', []))
+                if 'recv' in n:
+                    kids.append(n['recv'])
+                if n['k'] == 'DeclStmt':
+                    kids += [v['init'] for v in n.get('vars', []) if 'init' in v]
+                for c in kids:
+                    c = self.node(c)
+                    if c is not None and id(c) not in par:
+                        par[id(c)] = n
+            self._par = par
+        return self._par
+
+    def parent(self, n, transparent=True):
+        """Nearest enclosing node, skipping wrappers / casts / same-class copies when transparent."""
+        par = self.parents()
+        p = par.get(id(n))
+        while transparent and p is not None and (
+                p['k'] in WRAPPERS or p['k'] in EXPLICIT_CASTS or
+                (p['k'] == 'MemberExpr' and 'mfid' in p) or
+                (p['k'] == 'CXXConstructExpr' and len(p.get('args', [])) == 1 and
+                 _same_class_copy(p, self.node(p['args'][0])))):
+            p = par.get(id(p))
+        return p
 
     def reachable_blocks(self, start=None):
         start = self.entry if start is None else start
